@@ -57,6 +57,10 @@ fn check_inner(sub: &str, g: &G, toks: &[char], l: &mut Local) -> CaseRes {
 }
 
 pub fn check_case(case: &Case, l: &mut Local) -> Result<(), Fail> {
+    if case.sub == "kinds" {
+        let seed = case.extra.get("gap_seed").and_then(|p| p.as_u64()).unwrap_or(1);
+        return kinds_case(ID, &case.g, &case.toks(), seed, l).map_err(|(_, f)| f);
+    }
     if case.sub == "containers-static" {
         return containers_case(&case.input, l).map_err(|(_, f)| f);
     }
@@ -301,7 +305,13 @@ pub fn run(tier: Tier, seed: u64) -> i32 {
     ctx.par_random(n, 200, 2, |tape, l| {
         let (g, input, sub) = decode(tape);
         debug_assert!(wf(&g), "generator produced an ill-formed grammar: {}", render(&g));
-        check_inner(sub, &g, &input, l)
+        check_inner(sub, &g, &input, l)?;
+        // one case in sixteen: every other input representation too (C10's comparison against the slice baseline)
+        if tape.first().copied().unwrap_or(0) % 16 == 0 && !g.any_node(&|n| matches!(n, G::Rep(r) if r.hi.map(|h| h < r.lo).unwrap_or(false))) {
+            l.bump("cases_on_every_input_kind");
+            kinds_case(ID, &g, &input, 1 + (tape.len() as u64 % 5), l)?;
+        }
+        Ok(())
     });
     ctx.finish(&check_case, RULE, ASSUMPTIONS, &|l| {
         for k in ["container_collections_checked", "count_at_a_bound", "separator_before_failing_item", "accepted"] {
